@@ -21,7 +21,7 @@ NEEDS_DEPS = True
 WORKERS = 12
 CASE_TIMEOUT = 300
 REQUIRED_OBS = ["files_hashed", "contract_evals_hash_checksums", "external_tool_digests",
-                "stored_digests_checked"]
+                "stored_digests_checked", "intermediate_audits", "lists_needing_more_buffers_in_bytes_than_in_characters"]
 RULE = ("file cases: (size class around multiples of the 128 KiB read buffer, content class, algorithm "
         "tuple incl. permutations and repetitions); dataset cases: every digest stored in the metadata of "
         "a written dataset. Distinct = (size, content class, algorithm tuple) / (format, algorithms). All "
@@ -79,7 +79,10 @@ def gen_cases(tier: str, seed: int) -> list[dict]:
             algs = algs + (algs[0],)
         cases.append({"kind": "dataset", "fmt": fmt, "comp": comp, "algs": list(algs),
                       "n": rng.randint(3, 40), "eps": rng.randint(1, 7), "nested": k % 2 == 1,
-                      "big": k % 4 == 0, "cseed": rng.randrange(1 << 30)})
+                      "big": k % 4 == 0, "cseed": rng.randrange(1 << 30),
+                      # non-ASCII shard metadata: the shard list's byte length crosses a multiple of the read buffer
+                      # that its character count does not reach
+                      "wide_meta": rng.randint(60, 75) if k % 4 == 2 else 0})
     # a file rewritten with other bytes of the same length and its old modification time (cp -p, rsync -t,
     # coarse file-system clocks): the digest must be that of the bytes now in the file
     for _ in range(10 if tier == "quick" else 100):
@@ -291,17 +294,59 @@ def run_dataset(case: dict, work: Path) -> dict:
             e["blob"] = rng.integers(0, 256, size=70_000, dtype=np.uint8)
         return e
 
+    violations = []
+    audits = {"n": 0, "lists": 0, "max_list_bytes": 0, "non_ascii_list_bytes_minus_chars": 0,
+              "lists_needing_more_buffers_in_bytes_than_in_characters": 0}
+
+    def audit_now(stage: str):
+        report_now = auditor.audit(root, decode=False, check_digests=True)
+        audits["n"] += 1
+        audits["lists"] += len(report_now.lists)
+        for key, msg in report_now.problems:
+            violations.append({"key": f"stored-{key}" if key in ("list-digest", "shard-digest") else f"audit/{key}",
+                               "msg": f"{stage}: {msg}"})
+        for path in root.rglob("shards_list.json"):
+            data = path.read_bytes()
+            audits["max_list_bytes"] = max(audits["max_list_bytes"], len(data))
+            audits["non_ascii_list_bytes_minus_chars"] = max(audits["non_ascii_list_bytes_minus_chars"],
+                                                             len(data) - len(data.decode("utf-8")))
+        return report_now
+
     ids = [dsmod.make_id("train", 0, 0, k) for k in range(case["n"])]
     with dataset.filler() as filler:
         for i in ids:
             filler.write_example(values=ex(i), split="train")
+    if case.get("wide_meta"):
+        note = "\u00b5V \u6e2c\u5b9a " * 220
+
+        def wide_session(directory: str, shards: int, session_no: int):
+            with DatasetFiller(dataset, relative_path_from_split=Path(directory)) as filler:
+                for k in range(shards * case["eps"]):
+                    filler.write_example(values=ex(dsmod.make_id("holdout", session_no, 0, k)), split="holdout",
+                                         custom_metadata={"note": note, "shard": k // case["eps"]})
+            data = (root / "holdout" / directory / "shards_list.json").read_bytes()
+            return len(data.decode("utf-8")), len(data)
+
+        # two probe lists give the list size as a function of the number of shards (characters and bytes); the real
+        # one is then sized so that its BYTES need one more 128 KiB buffer than its CHARACTERS would
+        c1, b1 = wide_session("probe1", 1, 5)
+        c2, b2 = wide_session("probe2", 2, 6)
+        per_c, per_b = c2 - c1, b2 - b1
+        shards = -(-(BUF + 3000 - (b1 - per_b)) // per_b)
+        chars, size = wide_session("wide", shards, 7)
+        audits["lists_needing_more_buffers_in_bytes_than_in_characters"] = int(-(-size // BUF) > -(-chars // BUF))
+        audit_now("after the session with non-ASCII shard metadata")
     if case["nested"]:
-        with DatasetFiller(dataset, relative_path_from_split=Path("a/b")) as filler:
-            for k in range(3):
-                filler.write_example(values=ex(dsmod.make_id("test", 1, 0, k)), split="test")
-                filler.write_example(values=ex(dsmod.make_id("train", 1, 0, k)), split="train")
+        # the same sub-directory receives three sessions: every rewrite of its list must reach the parent's record
+        for session_no in (1, 2, 4):
+            with DatasetFiller(dataset, relative_path_from_split=Path("a/b")) as filler:
+                for k in range(3):
+                    filler.write_example(values=ex(dsmod.make_id("test", session_no, 0, k)), split="test")
+                    filler.write_example(values=ex(dsmod.make_id("train", session_no, 0, k)), split="train")
+            audit_now(f"after session {session_no} into the sub-directory a/b")
+            if session_no == 2:
+                dataset = Dataset(root)
     returned = dataset.write_config(updated_infos=[])
-    violations = []
     raw = (root / "dataset_info.json").read_bytes()
     want_root = tuple(auditor.digest(raw, a) for a in algs)
     stored = 0
@@ -338,6 +383,10 @@ def run_dataset(case: dict, work: Path) -> dict:
             "obs": {"files_hashed": len(report.shards) + len(report.lists) + 1,
                     "stored_digests_checked": stored, "external_tool_digests": ext,
                     "contract_evals_hash_checksums": evals.get("hash_checksums", 0),
+                    "intermediate_audits": audits["n"], "max_shard_list_bytes": audits["max_list_bytes"],
+                    "lists_needing_more_buffers_in_bytes_than_in_characters":
+                        audits["lists_needing_more_buffers_in_bytes_than_in_characters"],
+                    "max_bytes_minus_characters_of_a_shard_list": audits["non_ascii_list_bytes_minus_chars"],
                     "max_shard_bytes": max([(root / s.path).stat().st_size for s in report.shards] or [0])},
             "sample": {"dataset": case["fmt"], "algs": list(algs), "shards": len(report.shards),
                        "lists": len(report.lists)}}
